@@ -84,7 +84,7 @@ pub fn profile(name: &str) -> Option<Profile> {
             w: [45, 5, 5, 35, 2, 0, 3, 1, 0, 0, 0, 0], ..base },
         "mutate" => Profile { name: "mutate", universe: 5, len: 80, w: [20, 5, 8, 5, 45, 5, 2, 2, 2, 1, 0, 0], ..base },
         "insert" => Profile { name: "insert", universe: 5, len: 60, w: [40, 35, 5, 8, 4, 6, 2, 0, 0, 0, 0, 0], ..base },
-        "capacity" => Profile { name: "capacity", universe: 60, len: 200, w: [35, 5, 4, 20, 2, 1, 30, 2, 1, 1, 0, 0], big_limit: true, ..base },
+        "capacity" => Profile { name: "capacity", universe: 120, len: 500, w: [50, 5, 4, 22, 2, 0, 25, 1, 1, 0, 0, 0], big_limit: true, ..base },
         "retain" => Profile { name: "retain", universe: 8, len: 60, w: [40, 5, 10, 5, 5, 2, 2, 30, 0, 1, 0, 0], ..base },
         "iter" => Profile { name: "iter", universe: 7, len: 50, w: [40, 5, 8, 6, 4, 2, 2, 2, 30, 1, 0, 0], allow_consume: true, ..base },
         "forget" => Profile { name: "forget", universe: 7, len: 50, w: [40, 5, 8, 6, 4, 2, 2, 2, 30, 1, 0, 0], allow_consume: true, forget: true, ..base },
